@@ -26,6 +26,11 @@ pub fn install_panic_hook() {
     }));
 }
 
+pub fn install_panic_hook_once() {
+    static ONCE: std::sync::Once = std::sync::Once::new();
+    ONCE.call_once(install_panic_hook);
+}
+
 /// Run a cachelito operation, turning a panic into `Err(message)`.
 pub fn guarded<T>(f: impl FnOnce() -> T) -> Result<T, String> {
     IN_OP.with(|q| q.set(true));
